@@ -29,6 +29,7 @@ import (
 	"runtime/debug"
 	"strings"
 	"sync"
+	"sync/atomic"
 	"time"
 
 	"github.com/PurpleSec/logx"
@@ -613,6 +614,143 @@ func runStress(k int, sc Scn, r *vh.Rand) (res Res) {
 	return res
 }
 
+// runRemoveRace: Server.Remove(id, false) in a loop (it is what every server-side shutdown and
+// every handled SvShutdown notice calls) while the Server is closed; a fresh Server per attempt.
+// Variant "started": with a Listener (the event thread drains delSession until it takes the
+// cancel); variant "idle": no Listener, nobody drains, the senders block on the full channel.
+func runRemoveRace(k int, sc Scn, r *vh.Rand) (res Res) {
+	res.K, res.Returned, res.Extra = k, true, map[string]int{}
+	base := runtime.NumGoroutine()
+	var (
+		snd, other, hung int
+		mu               sync.Mutex
+		first            string
+	)
+	for a := 0; a < sc.Pairs; a++ {
+		srv := c2.NewServer(logx.NOP)
+		srv.Keys.Fill()
+		var l *c2.Listener
+		if sc.Variant == "started" {
+			var err error
+			if l, err = srv.Listen("c16r", "127.0.0.1:0", cfg.Static{L: com.TCP}); err != nil {
+				panic("listen: " + err.Error())
+			}
+		}
+		var (
+			id   = newID(r)
+			wg   sync.WaitGroup
+			stop uint32
+		)
+		for j := 0; j < 3; j++ {
+			wg.Add(1)
+			go func() {
+				defer wg.Done()
+				defer func() {
+					if x := recover(); x != nil {
+						m := fmt.Sprint(x)
+						mu.Lock()
+						if strings.Contains(m, "send on closed channel") {
+							snd++
+						} else {
+							other++
+						}
+						if first == "" {
+							first = m + "\n" + string(debug.Stack())
+						}
+						mu.Unlock()
+					}
+				}()
+				for n := 0; n < 4000 && atomic.LoadUint32(&stop) == 0; n++ {
+					srv.Remove(id, false)
+				}
+			}()
+		}
+		time.Sleep(time.Duration(20+r.Intn(200)) * time.Microsecond)
+		cl := make(chan struct{})
+		go func() { srv.Close(); close(cl) }()
+		if !waitCh(cl, 3*time.Second) {
+			hung++
+		}
+		atomic.StoreUint32(&stop, 1)
+		dn := make(chan struct{})
+		go func() { wg.Wait(); close(dn) }()
+		if !waitCh(dn, 3*time.Second) {
+			hung++
+		}
+		_ = l
+	}
+	res.Extra["remove-race-attempts"] = sc.Pairs
+	res.Extra["remove-race-send-on-closed"] = snd
+	if snd > 0 {
+		res.Panic, res.PanicMsg = true, first
+		res.Fails = append(res.Fails, failRec{fmt.Sprintf("%d 'send on closed channel' panic(s) in Server.Remove(id, false) racing Server.Close in %d attempts (variant %q)", snd, sc.Pairs, sc.Variant), "remove-vs-server-close"})
+	}
+	if other > 0 {
+		res.Panic, res.PanicMsg = true, first
+		res.Fails = append(res.Fails, failRec{"unexpected panic in Server.Remove racing Server.Close: " + first, "remove-race-panic"})
+	}
+	if hung > 0 {
+		res.Returned = false
+		res.Fails = append(res.Fails, failRec{fmt.Sprintf("%d attempt(s): Server.Close or a Server.Remove(id, false) caller did not return within 3 s", hung), "remove-race-hang"})
+	}
+	if g := settleGoroutines(base, 2*time.Second); g > base && hung == 0 {
+		res.Fails = append(res.Fails, failRec{fmt.Sprintf("goroutines did not return to the baseline after the Remove/Close attempts: %d > %d", g, base), "goroutine-baseline-remove-race"})
+	}
+	return res
+}
+
+// runFresh: Close on a Server whose event thread never started (no Listener was ever added, or
+// the only Listen failed), 1..4 concurrent calls, repeated.
+func runFresh(k int, sc Scn, r *vh.Rand) (res Res) {
+	res.K, res.Returned, res.Extra = k, true, map[string]int{}
+	base := runtime.NumGoroutine()
+	srv := c2.NewServer(logx.NOP)
+	if sc.Variant == "listen-failed" {
+		// the address is taken: Listen fails before the event thread is started
+		o := c2.NewServer(logx.NOP)
+		o.Keys.Fill()
+		ol, err := o.Listen("c16o", "127.0.0.1:0", cfg.Static{L: com.TCP})
+		if err != nil {
+			panic("listen: " + err.Error())
+		}
+		if _, err = srv.Listen("c16f", ol.Address(), cfg.Static{L: com.TCP}); err == nil {
+			res.Obs = append(res.Obs, "a second Listen on a taken address did not fail")
+		}
+		defer func() {
+			cl := make(chan struct{})
+			go func() { ol.Close(); o.Close(); close(cl) }()
+			waitCh(cl, 3*time.Second)
+		}()
+	}
+	for pi, ph := range sc.Phases {
+		var wg sync.WaitGroup
+		for range ph {
+			wg.Add(1)
+			go func() { defer wg.Done(); srv.Close() }()
+		}
+		done := make(chan struct{})
+		go func() { wg.Wait(); close(done) }()
+		if !waitCh(done, 3*time.Second) {
+			res.Returned = false
+			res.Fails = append(res.Fails, failRec{fmt.Sprintf("Server.Close (phase %d, %d concurrent call(s)) on a Server whose event thread never started did not return within 3 s (variant %q)", pi, len(ph), sc.Variant), "fresh-server-close-hang"})
+			break
+		}
+	}
+	if res.Returned {
+		if !waitCh(srv.Done(), time.Second) {
+			res.Fails = append(res.Fails, failRec{"Server.Wait/Done not released after Close on a never-started Server", "fresh-server-wait"})
+		}
+		if srv.IsActive() {
+			res.Fails = append(res.Fails, failRec{"a closed never-started Server is still active", "fresh-server-active"})
+		}
+		if g := settleGoroutines(base, 1500*time.Millisecond); g > base && sc.Variant != "listen-failed" {
+			res.Fails = append(res.Fails, failRec{fmt.Sprintf("goroutines did not return to the baseline: %d > %d", g, base), "goroutine-baseline-fresh"})
+		}
+	}
+	res.Final = []int64{b2i(res.Returned), chanObs(srv.Done())}
+	return res
+}
+
 // ---------------------------------------------------------------- scenario generation
 
 var instants = []string{"registered", "idle", "queued-client", "queued-server", "queued-both", "fragments", "mid-exchange"}
@@ -643,6 +781,15 @@ func gen(r *vh.Rand, tier string) []Scn {
 	add(Scn{Kind: "stress", Variant: "pair", Pairs: 3000})
 	add(Scn{Kind: "stress", Variant: "quad", Pairs: 1000})
 	add(Scn{Kind: "stress", Variant: "close-vs-shutdown", Pairs: 5000})
+	rr := 400
+	if tier == "thorough" {
+		rr = 6000
+	}
+	add(Scn{Kind: "remove-race", Variant: "started", Pairs: rr})
+	add(Scn{Kind: "remove-race", Variant: "idle", Pairs: rr / 4})
+	add(Scn{Kind: "fresh", Variant: "never-listened", Phases: [][]int{{cSrvClose}}})
+	add(Scn{Kind: "fresh", Variant: "never-listened", Phases: [][]int{{cSrvClose, cSrvClose, cSrvClose, cSrvClose}, {cSrvClose}}})
+	add(Scn{Kind: "fresh", Variant: "listen-failed", Phases: [][]int{{cSrvClose}}})
 	add(e("idle", false, false, false, true, []int{cClientClose}))
 	add(e("idle", false, false, false, true, []int{cServerClose}))
 	add(e("idle", false, false, false, true, []int{cCtxCancel}))
@@ -780,6 +927,10 @@ func childMain(file string, from int, seed uint64) {
 		var res Res
 		if scs[k].Kind == "stress" {
 			res = runStress(k, scs[k], r)
+		} else if scs[k].Kind == "remove-race" {
+			res = runRemoveRace(k, scs[k], r)
+		} else if scs[k].Kind == "fresh" {
+			res = runFresh(k, scs[k], r)
 		} else {
 			res = runE2E(k, scs[k], r)
 		}
@@ -963,7 +1114,7 @@ func main() {
 		if res.PanicMsg != "" {
 			desc["panic_msg"] = res.PanicMsg
 		}
-		nontrivial := len(sc.Phases) > 0 || sc.Kind == "stress"
+		nontrivial := len(sc.Phases) > 0 || sc.Kind == "stress" || sc.Kind == "remove-race"
 		if sc.Kind == "e2e" && sc.Compare && !res.NoCompare && len(res.Final) == 27 {
 			term := fmt.Sprintf("CRun %s %s %s true %s %s %s %s %s", coqBool(sc.Cpk), coqBool(sc.Spk), coqBool(sc.Chm), coqBool(sc.Cbk),
 				phasesCoq(sc.Phases), coqBool(res.Panic), coqBool(res.Returned), vh.ZList64(res.Final))
